@@ -29,7 +29,9 @@ PROPS = {
         "monitors": ["path_independence"],
         "scope_regex": r"^abci (reset|restart|prepare|process|finalize|commit|variant) ",
         "nontrivial_regex": r"^abci (finalize|commit) .* => ok ",
-        "rule": "in-crate harness: 5 independent App instances (own TempStorage, same genesis + Aspen/Blackburn upgrade blocks) are fed the same "
+        "rule": "in-crate harness: 5 independent App instances (own TempStorage, same genesis; Aspen at height 1, Blackburn at height 3, 5, 7 or 9 "
+                "depending on the session, so that an upgrade activation height with its UpgradeChangeHashes item and consensus-param update is "
+                "executed under every call path) are fed the same "
                 "generated multi-block history (quick: 3 sessions x 10 heights, thorough: 12 x 30) by different legal call orders per height: "
                 "1-3 rounds with PrepareProposal on a random proposer from a random mempool subset and a random max_tx_bytes, foreign "
                 "proposals processed (or not) in undecided rounds, variants of a proposal differing in one fingerprint field, mutated "
@@ -75,8 +77,8 @@ PROPS = {
                 "limit and the per-proposal byte limit, all four action groups, non-fatally failing IBC relays, fatally failing transfers and their "
                 "dependent nonces, transactions forced into the queue with a wrong nonce) -> the REAL prepare_proposal on instance A for a sweep of "
                 "max_tx_bytes (unconstrained, exactly the proposal size, one less, injected items only, first tx boundary, 67/68/72, random) -> "
-                "the REAL process_proposal on instance B on the same committed state -> 14 single-field mutations of the honest proposal (either "
-                "commitment root, swapped / dropped / misplaced data items, undecodable tx, flipped signature byte, group order violated, "
+                "the REAL process_proposal on instance B on the same committed state -> 15 single-field mutations of the honest proposal (either "
+                "commitment root, swapped / dropped / misplaced data items incl. a dropped upgrade-change-hashes item at an upgrade height, undecodable tx, flipped signature byte, group order violated, "
                 "appended fatally failing tx, appended data over the limit; commitments recomputed where the mutation is not about them) processed "
                 "on instance C. The builder queue, per-transaction execution outcomes (from the execute_transaction spans) and sizes are replayed "
                 "through the Lean prepare / process model. non-trivial = a prepare line including at least one transaction or a process verdict; "
@@ -86,10 +88,11 @@ PROPS = {
             "CometBFT's per-transaction protobuf framing overhead is not counted by the code and not by the model (max_tx_bytes is compared with the sum "
             "of the raw item lengths, as block_size_constraints.rs does)",
             "C06_prepare_then_process_accepts_partial needs two provisos forced by the unchanged code: every included transaction is constructible "
-            "against the block-start state with the same execution behaviour (fails for dependent transactions: open finding F11), and the extended "
-            "commit info fits into max_tx_bytes (otherwise prepare falls back to an item no node can parse: open finding F12); both counterexamples "
+            "against the block-start state (fails for dependent transactions: open finding F11), and the proposal does not carry the empty "
+            "extended-commit-info fallback item, i.e. the extended commit info fitted into max_tx_bytes (otherwise no node can parse it: open finding F12); both counterexamples "
             "are proved on the as-is model and reproduced on the real code (corpus/abci.ops)",
-            "pre-Aspen untyped data (two raw 32-byte roots) and the upgrade-change-hashes item are not exercised (all generated heights are post-upgrade)",
+            "pre-Aspen untyped data (two raw 32-byte roots) is not modelled (all generated heights are post-Aspen); the Blackburn activation height "
+            "with its upgrade-change-hashes item is exercised",
             "vote-extension validity, commitment recomputation and transaction execution are oracles of the replay (observed per line), not modelled",
         ],
         "explanation": "theorems for all queues / limits / outcomes about the prepare loop and the process checks; correspondence of every prepare "
@@ -121,7 +124,7 @@ TEXT = {
                 "successfully or failed non-fatally; ProcessProposal on the same committed state accepts it (under two provisos the unchanged "
                 "code forces, each with a proved and reproduced counterexample); ProcessProposal accepts only well-formed, constructible, "
                 "group-ordered, within-limit proposals whose commitments match, hence rejects every listed mutation class. Every run drives the "
-                "real prepare_proposal / process_proposal over generated mempools, a sweep of limits and 14 mutation kinds and replays each line.",
+                "real prepare_proposal / process_proposal over generated mempools, a sweep of limits and 15 mutation kinds and replays each line.",
         "design_ref": "DESIGN.md §6 C06",
         "note": "Trusted: Lean kernel, hand-written model, harness/driver. Open findings F11 (dependent transactions rejected by validators) and "
                 "F12 (empty extended-commit-info fallback is unparseable) reported with replays.",
